@@ -53,6 +53,12 @@ where
     }
     let sequential =
         manager.workers().current_num_threads() == 1 || manager.approx_num_inner_nodes() < 65536;
+    // Verification hook: allow the harness to select the concurrent variant for
+    // small diagrams as well (only with more than one worker thread).
+    #[cfg(oxidd_verif)]
+    let sequential = sequential
+        && !(VERIF_FORCE_CONCURRENT.load(Relaxed) != 0
+            && manager.workers().current_num_threads() > 1);
     let (sort, update): (SortFn<M>, UpdateLevelFn<M>) = if sequential {
         (bubble_sort, update_levels_seq)
     } else {
@@ -60,6 +66,12 @@ where
     };
     set_var_order_common(manager, order, sort, update);
 }
+
+/// Verification hook (see `set_var_order()`): if non-zero, the concurrent
+/// bubble sort is used regardless of the diagram's size
+#[cfg(oxidd_verif)]
+pub static VERIF_FORCE_CONCURRENT: std::sync::atomic::AtomicU32 =
+    std::sync::atomic::AtomicU32::new(0);
 
 type SwapFn<'a, M> = &'a (dyn for<'b> Fn(&'b M, u32) + Sync);
 type SortFn<M> = fn(&M, &mut [u32], SwapFn<'_, M>);
